@@ -74,7 +74,12 @@ MkError(st, name, msg) ==
     LET a == Alloc(st, [OM!NewObj("Error", ErrProtoId(st, name)) EXCEPT !.fn = [k |-> "error"]])
         H2 == IF msg = <<>> THEN a.st.H ELSE DefData(a.st.H, a.id, S_message, StrV(msg), TRUE, FALSE, TRUE)
     IN  [st |-> SetH(a.st, H2), v |-> ObjV(a.id)]
-ThrowErr(st, name) == LET e == MkError(st, name, <<120>>) IN Thr(e.st, e.v)   \* message text is not specified by ES5
+(* errors raised by the interpreter itself: ES5 does not specify the message text, *)
+(* so the message is "unmodelled": a program that looks at it becomes undecided     *)
+ThrowErr(st, name) ==
+    LET e == MkError(st, name, <<>>)
+        H2 == DefData(e.st.H, e.v.id, S_message, [t |-> "unmodelled"], TRUE, FALSE, TRUE)
+    IN  Thr(SetH(e.st, H2), e.v)
 
 -----------------------------------------------------------------------------
 (* property access on objects, with the arguments-object parameter map (10.6) *)
@@ -292,8 +297,10 @@ RunBody(st, body, cx, isEval) ==
 MakeArguments(st, f, args, env, params) ==
     LET a == Alloc(st, [OM!NewObj("Arguments", ObjectProto) EXCEPT !.cls = "Arguments"])
         idxs == 1..Len(args)
-        \* the last parameter of a given name wins the mapping (10.6 step 11)
-        mapped == {i \in idxs : i <= Len(params) /\ ~\E j \in (i + 1)..Len(params) : params[j] = params[i]}
+        \* 10.6 step 11 walks the ARGUMENT indexes from the last to the first: among the formal
+        \* parameters that received an argument, the last one of a given name wins the mapping
+        nMap == IF Len(params) < Len(args) THEN Len(params) ELSE Len(args)
+        mapped == {i \in 1..nMap : ~\E j \in (i + 1)..nMap : params[j] = params[i]}
         RECURSIVE Fill(_, _)
         Fill(H, i) == IF i > Len(args) THEN H ELSE Fill(DefData(H, a.id, DigitsNat(i - 1), args[i], TRUE, TRUE, TRUE), i + 1)
         H1 == DefData(a.st.H, a.id, S_length, IntV(Len(args)), TRUE, FALSE, TRUE)
@@ -386,7 +393,8 @@ Call(st, f, thisV, args) ==
                                ns == IF nm.v.t = "undef" THEN Ok(nm.st, StrV(S_Error)) ELSE ToStr(nm.st, nm.v)
                            IN  IF ns.thr # "" THEN ns
                                ELSE LET mg == ObjGet(ns.st, thisV.id, S_message)
-                                        ms == IF mg.v.t = "undef" THEN Ok(mg.st, StrV(<<>>)) ELSE ToStr(mg.st, mg.v)
+                                    IN  IF mg.v.t = "unmodelled" THEN Und(mg.st) ELSE
+                                    LET ms == IF mg.v.t = "undef" THEN Ok(mg.st, StrV(<<>>)) ELSE ToStr(mg.st, mg.v)
                                     IN  IF ms.thr # "" THEN ms
                                         ELSE IF ns.v.s = <<>> THEN ms
                                         ELSE IF ms.v.s = <<>> THEN Ok(ms.st, ns.v)
